@@ -287,7 +287,7 @@ impl Envelope {
         // - `Signature` objects with additional metadata assertions, wrapped
         // and then signed by the same key.
         let signature_objects = self.objects_for_predicate(known_values::SIGNED);
-        let result: Option<Result<Option<Envelope>>> = signature_objects.iter().find_map(|signature_object| {
+        let check_signature_object = |signature_object: &Envelope| -> Option<Result<Option<Envelope>>> {
             let signature_object_subject = signature_object.subject();
             if signature_object_subject.is_wrapped() {
                 match signature_object.object_for_predicate(known_values::SIGNED) {
@@ -324,12 +324,25 @@ impl Envelope {
             } else {
                 Some(Err(anyhow::anyhow!("Unexpected signature object type.")))
             }
-        });
+        };
 
-        match result {
-            Some(Ok(Some(envelope))) => Ok(Some(envelope)),
-            Some(Err(err)) => Err(err),
-            _ => Ok(None),
+        // Look at every `'signed'` object: one that is malformed, obscured or
+        // made for something else must not keep a valid signature that sorts
+        // after it from being found. An error is reported only when no valid
+        // signature from the key exists.
+        let mut first_error = None;
+        for signature_object in signature_objects.iter() {
+            match check_signature_object(signature_object) {
+                Some(Ok(Some(envelope))) => return Ok(Some(envelope)),
+                Some(Err(err)) => {
+                    first_error.get_or_insert(err);
+                }
+                _ => {}
+            }
+        }
+        match first_error {
+            Some(err) => Err(err),
+            None => Ok(None),
         }
     }
 }
